@@ -127,7 +127,8 @@ def gen_case(r, kind):
         # the engine declares a new initial step in the middle of the session: the number of steps since the last update no longer
         # equals the factor and update_extended_Lagrangian() raises its factor error (the update is skipped, the bias force stays on the atoms)
         jj = r.randint(3, len(ev) - 2)
-        if not ev[jj]["boundary"]:
+        if not ev[jj]["boundary"] and awake_steps(c)[jj - 1][1] >= 2:
+            # (at least two steps done: the new relative step 1 can be taken neither for a repetition nor for the successor of the last update)
             c["setstep_at"] = (jj, r.choice([0, 100, 1000]))
     return c
 
@@ -519,7 +520,8 @@ def oracles(run, c, recs, scn, first_event=0, resumed=False):
             if not (x == clamp(c, e["x"]) and v == 0.0):
                 run.violation("init:start", "the first step starts from (%r,%r), not from the clamped value %r of the variable and zero velocity" % (x, v, clamp(c, e["x"])), rep)
                 return
-        if c.get("setstep_at") and j == c["setstep_at"][0]:
+        if c.get("setstep_at") and j == c["setstep_at"][0] and prev is not None and prev[2] >= 2:
+            # (after earlier repetitions of step 0 or 1 the new relative step 1 is a legitimate successor: no error then)
             # factor guard: relative step it - origin, last update at relative step prev: error iff their difference is neither 0 nor the factor
             run.dist("steps-raising-the-factor-error")
             if not rec["err"] or not close(rec["fz"], tsf * (e["fb"] + e["fba"])) or rec["x_ext"] != rec["x_rep"]:
